@@ -289,8 +289,10 @@ def run_history(src, tbl, H, tmp: Path, tag: str, trace: bool):
     return doc, tracer, last
 
 
-def observe_full(doc, touched_by_table=None, big=400) -> dict:
-    """Everything C16 names, read through the public API, per sheet/table."""
+def observe_full(doc, touched_by_table=None, big=400, widths_first=False) -> dict:
+    """Everything C16 names, read through the public API, per sheet/table.  widths_first: column widths and the table
+    width are the very first things read from each table (round 7: what a reopened document reports must not depend on
+    which accessor happened to be called first)."""
     out = {}
     for si, sheet in enumerate(doc.sheets):
         out[f"sheet{si}.name"] = sheet.name
@@ -303,6 +305,11 @@ def observe_full(doc, touched_by_table=None, big=400) -> dict:
                     return f()
                 except Exception as e:  # noqa: BLE001
                     return exn(e)
+            if widths_first:
+                for c in sel_lines(t.num_cols, tc):
+                    out[f"{key}.col_width[{c}]"] = get(lambda c=c: t.col_width(c))
+                if t.num_cols <= big:
+                    out[key + ".width"] = get(lambda: t.width)
             out[key + ".name"] = get(lambda: t.name)
             out[key + ".table_name_enabled"] = get(lambda: t.table_name_enabled)
             out[key + ".num_header_rows"] = get(lambda: t.num_header_rows)
@@ -314,10 +321,11 @@ def observe_full(doc, touched_by_table=None, big=400) -> dict:
             for r in sel_lines(t.num_rows, tr):
                 out[f"{key}.row_height[{r}]"] = get(lambda r=r: t.row_height(r))
             for c in sel_lines(t.num_cols, tc):
-                out[f"{key}.col_width[{c}]"] = get(lambda c=c: t.col_width(c))
+                if not widths_first:
+                    out[f"{key}.col_width[{c}]"] = get(lambda c=c: t.col_width(c))
             if t.num_rows <= big:
                 out[key + ".height"] = get(lambda: t.height)
-            if t.num_cols <= big:
+            if t.num_cols <= big and not widths_first:
                 out[key + ".width"] = get(lambda: t.width)
     return out
 
@@ -366,8 +374,14 @@ def oracle_case(case: dict, tmp: Path, tag: str, final_path=None):
             _, _, final_path = run_history(src, tbl, H + [["cycle"]], tmp, tag + "_run", trace=False)
         fresh = Document(final_path)
         o_fin = observe_full(fresh, touched)
+        o_fin_w = observe_full(Document(final_path), touched, widths_first=True)
     except Exception as e:  # noqa: BLE001
         return [("save-reopen-raises", f"{type(e).__name__}: {e}")]
+    for k in sorted(o_fin):
+        if o_fin_w.get(k) != o_fin[k]:
+            fails.append(("reopened-read-order:" + k.split(".", 1)[1].split("[")[0],
+                          f"{k}: the reopened document reports {o_fin[k]!r} when heights are read first and {o_fin_w.get(k)!r} when widths are read first"))
+            break
     queried_r = {ev[1] for ev in H if ev[0] == "q_rh"}
     queried_c = {ev[1] for ev in H if ev[0] == "q_cw"}
     all_r = any(ev[0] == "q_h" for ev in H)
